@@ -32,13 +32,15 @@ class JSONBase(AsJSONMixin):
     def __init_subclass__(cls: type, **kwargs):
         super().__init_subclass__(**kwargs)
         existing = __from_json__class__.get(cls.__name__)
+        protected = ('tatsu.peg', 'tatsu.packetz')
         if (
             existing is not None
-            and existing.__module__.startswith('tatsu.peg')
-            and not cls.__module__.startswith('tatsu.peg')
+            and existing.__module__.startswith(protected)
+            and not cls.__module__.startswith(protected)
         ):
-            # NOTE: a model class synthesized for a rule such as `x::Token`
-            #   must not replace the grammar-model class Grammar.load() needs
+            # NOTE: a model class synthesized for a rule such as `x::Token` or
+            #   `x::Packet` must not replace the class that Grammar.load() or
+            #   the packet queue's unpack() needs
             return
         __from_json__class__[cls.__name__] = cls
 
